@@ -17,6 +17,10 @@ Binding 2: the same build runs 2..32 goroutines (GOMAXPROCS 1,2,4,16 = separate 
           "repaired" document (classic xref section without object 0); merge destination / page removal / optimize free objects
           in it. Every process re-runs the cheap operations alone after its concurrent phase (state left behind), and solo
           results that fail or vary inside the sequential solo process are re-run in fresh processes.
+          Shared resources: every round has two goroutines stamping from ONE stamp PDF file / ONE image file (by file name) or
+          with one user font, or decoding DIFFERENT hand-built documents whose 7 page content streams use every stream filter
+          (ASCIIHex, ASCII85, RunLength, LZW, Flate, Flate + PNG predictor, a filter chain); op "content" compares the decoded
+          page content with the solo run. Conc_shared.cfg (operations share one mutable process-wide object) must be refuted.
 Life    : spec/ConcLife.tla enumerates the life-cycle schedules of the cache in one process (first lookup / lookup / reload
           issued while a directory scan is held open at a gate, gate opening at every position); every schedule is replayed in
           a FRESH process (harness/cmd/conc life; the sync.Once state exists once per process; gate = a named pipe as the first
@@ -207,7 +211,7 @@ def run(ctx):
         # design model checks run in the background while the race build is made / used
         # ConcCert: the certificate-pool revision cache, model only (no trusted-certificate directory in the mode of C40);
         # ConcCert_reset.cfg is the mark-before-install order of ResetCertificates (pdfcpu_eutl build), refuted by TLC
-        dcfgs = [("Conc_quick.cfg", None, 4), ("Conc_broken.cfg", "CompleteGen", 2), ("Conc_late.cfg", "NoRace", 1), ("Conc_inversion.cfg", "NoStuck", 2),
+        dcfgs = [("Conc_quick.cfg", None, 4), ("Conc_broken.cfg", "CompleteGen", 2), ("Conc_late.cfg", "NoRace", 1), ("Conc_inversion.cfg", "NoStuck", 2), ("Conc_shared.cfg", "NoRace", 1),
                  ("ConcCert_import.cfg", None, 1), ("ConcCert_reset.cfg", "Coherent", 1)]
         if not ctx.quick:
             dcfgs = [("Conc_thorough.cfg", None, 8), ("Conc_live.cfg", None, 2)] + dcfgs[1:]
